@@ -55,7 +55,107 @@ def front_rule(index: RepoIndex, rep, rule: str, g=None, gi=None) -> None:
                   f'front {o}')
 
 
+def reflected_operators(index: RepoIndex, rep, rule: str) -> None:
+    """`a * b` and `b * a` are both documented for poses, positions, areas and grids.  The
+    second spelling works through `__rmul__` of the right operand -- which must accept every
+    operand type its `__mul__` accepts -- and, when the left operand has a `__mul__` of its
+    own, only if that answers NotImplemented for an operand of a class it does not know
+    (`orientation * grid` reaches Grid.__rmul__ that way).  Read from the isinstance tests:
+    the operand types under which a path returns something other than NotImplemented."""
+    from ..guards import truth_under
+    PINNED = (('gym_gridverse/geometry.py', 'Orientation', 'mul'),
+              ('gym_gridverse/geometry.py', 'Transform', 'mul'),
+              ('gym_gridverse/geometry.py', 'Position', 'add'),
+              ('gym_gridverse/grid.py', 'Grid', 'mul'))
+
+    def types_of(t: ast.AST):
+        return {src(x) for x in (t.elts if isinstance(t, ast.Tuple) else [t])}
+
+    def accepted(fn):
+        """(types accepted, return that a foreign operand reaches, universe)"""
+        w = walk_function(fn.node)
+        if len(fn.node.args.args) < 2:
+            raise AnalysisError(f'{fn.short}: no operand parameter')
+        op = fn.node.args.args[1].arg
+        universe = set()
+        for n in ast.walk(fn.node):
+            if isinstance(n, ast.Call) and src(n.func) == 'isinstance' and len(n.args) == 2 \
+                    and src(n.args[0]) == op:
+                universe |= types_of(n.args[1])
+
+        def truth_for(T):
+            def at(e):
+                if isinstance(e, ast.Call) and src(e.func) == 'isinstance' and \
+                        len(e.args) == 2 and src(e.args[0]) == op:
+                    return T in types_of(e.args[1])
+                return None
+            return at
+        acc, foreign = set(), None
+        for e in w.events:
+            if e.kind != 'return' or e.value is None or src(e.value) == 'NotImplemented':
+                continue
+            for T in sorted(universe):
+                if truth_under(strip_iter(e.guard), truth_for(T)) is not False:
+                    acc.add(T)
+            if truth_under(strip_iter(e.guard), truth_for('<foreign>')) is not False \
+                    and foreign is None:
+                foreign = e
+        return acc, foreign, universe, op
+
+    from ..guards import strip_iter
+    for rel, cname, o in PINNED:
+        cls = index.cls(rel, cname)
+        fwd = cls.methods.get(f'__{o}__')
+        if fwd is None:
+            raise AnalysisError(f'anchor vanished: {cname}.__{o}__')
+        acc, foreign, universe, _ = accepted(fwd)
+        if universe:
+            rep.check(foreign is None, rule, rel, fwd.short, fwd.node.lineno,
+                      src(foreign.stmt)[:120] if foreign is not None else f'{sorted(universe)}',
+                      f'{cname}.__{o}__ answers an operand of a class it does not test for '
+                      f'(`{src(foreign.stmt)[:80] if foreign is not None else ""}`) instead of '
+                      f'NotImplemented: the reflected operator of that class (Grid.__rmul__ for '
+                      f'`orientation * grid`) is never tried',
+                      f'{cname}.__{o}__: foreign operands -> NotImplemented')
+        r = f'__r{o}__'
+        alias = cls.attrs.get(r)
+        rf = cls.methods.get(r)
+        if alias is not None and rf is None:
+            rep.check(src(alias) == f'__{o}__', rule, rel, f'{cname}.{r}', alias.lineno,
+                      f'{r} = {src(alias)}', f'{cname}.{r} is `{src(alias)}`, not {cname}.__{o}__',
+                      f'{cname}.{r} is __{o}__')
+            continue
+        if rf is None:
+            rep.violation(rule, rel, f'{cname}.{r}', cls.node.lineno, cname,
+                          f'{cname} no longer has {r}: `x {"*" if o == "mul" else "+"} '
+                          f'{cname.lower()}` is not defined')
+            continue
+        racc, rforeign, runi, rop = accepted(rf)
+        if not runi:
+            # no type test: it must hand the operand to the forward operator
+            from ..inline import pure_body_expr
+            e = pure_body_expr(rf.node)
+            ok = e is not None and src(e) in (f'self.__{o}__({rop})',
+                                              f'self {"*" if o == "mul" else "+"} {rop}',
+                                              f'{cname}.__{o}__(self, {rop})')
+            rep.check(ok, rule, rel, rf.short, rf.node.lineno, src(e)[:100] if e is not None
+                      else rf.short, f'{cname}.{r} is not the forward operator with the operands '
+                      f'exchanged', f'{cname}.{r} forwards')
+            continue
+        missing = sorted((acc - {cname}) - racc)
+        rep.check(not missing, rule, rel, rf.short, rf.node.lineno,
+                  f'accepts {sorted(racc)}; __{o}__ accepts {sorted(acc)}',
+                  f'{cname}.{r} does not accept {missing}, which {cname}.__{o}__ accepts: '
+                  f'`{missing[0].lower() if missing else ""} {"*" if o == "mul" else "+"} '
+                  f'{cname.lower()}` raises TypeError although the other spelling works',
+                  f'{cname}.{r} accepts what __{o}__ accepts')
+
+
 def run(index: RepoIndex, rep) -> None:
+    rep.rule('C18.R12', 'both spellings of a product work: reflected operators accept every '
+             'operand type the forward operator accepts, and the forward operators answer '
+             'NotImplemented for operands of other classes', floor=7)
+    reflected_operators(index, rep, 'C18.R12')
     rep.rule('C18.R9', 'outside the rotation operators, geometry keeps row and column quantities apart (axis typing, E14)', floor=1)
     from ..axes import axis_rule
     axis_rule(index, rep, 'C18.R9', ('gym_gridverse/geometry.py',), floor=12)
